@@ -14,7 +14,7 @@ gradient machinery, the derivative claim itself is observed.
    validated by TLC (TraceSensPipe): which adjoint sources, which direction
    ends in which row, where the chain rule is applied, shape.
 3. Observation attached to every trace (obsok): for the unstubbed machinery,
-   central differences of the reported misfit (h = 1e-4, fresh simulations)
+   central differences of the reported misfit (h = 2e-5, fresh simulations)
    against <gradient, d> for a dense direction and a single-row direction
    (rtol 1e-4; measured on the pinned tree: error 5e-6, second order in h).
 """
@@ -112,7 +112,8 @@ def run_common(pid, jobfn, tier, replay, n_quick, n_thorough, rep):
         r = [e for e in t["ev"] if e["e"] == "Result"][0]
         r["rows"][0], r["rows"][1] = r["rows"][1], r["rows"][0]
         muts.append(t)                 # vertical gradient in the wrong row
-        t = copy.deepcopy(good[0])
+        t = copy.deepcopy([g for g in good if any(
+            e["e"] == "Inject" for e in g["ev"])][0])
         k = [i for i, e in enumerate(t["ev"]) if e["e"] == "Inject"][0]
         del t["ev"][k]
         muts.append(t)                 # a datum left out of the adjoint source
@@ -134,7 +135,8 @@ def run_common(pid, jobfn, tier, replay, n_quick, n_thorough, rep):
         c = [e for e in t["ev"] if e["e"] == "Chain"][0]
         c["content"] = c["content"][:-1]
         muts.append(t)                 # chain rule before everything was folded
-        t = copy.deepcopy(good[1])
+        t = copy.deepcopy([g for g in good if any(
+            e["e"] == "Inject" for e in g["ev"])][-1])
         [e for e in t["ev"] if e["e"] == "Inject"][0]["strok"] = False
         muts.append(t)
         t = copy.deepcopy(good[2])
@@ -154,7 +156,7 @@ def run_common(pid, jobfn, tier, replay, n_quick, n_thorough, rep):
 def run(tier, replay=None):
     rep = C.Report("C07", tier, level="exploration")
     rep.assumptions += [
-        "partial: the finite-difference agreement (rtol 1e-4 at h = 1e-4; "
+        "partial: the finite-difference agreement (rtol 1e-4 at h = 2e-5; "
         "solver tolerance 1e-10) is a floating-point observation handed to "
         "TLC as a boolean; TLC decides which data enter the adjoint sources, "
         "the collection of the directional gradients into the rows of the "
